@@ -292,7 +292,7 @@ def make_super():
 
 def obligations(tier):
     obs = []
-    T = 300 if tier == "quick" else 900
+    T = 480 if tier == "quick" else 900  # (the containers template needs ~300 s on a loaded machine)
     for tname in TEMPLATES:
         n = len(documented(TEMPLATES[tname])) + 3
         for kind in [None] + KINDS:
